@@ -150,6 +150,14 @@ CHECKS.update({
     ),
 })
 
+CHECKS.update({
+    "C20": dict(
+        technique="property-based testing: generated definition sets loaded through load() (plus API aliases), stub text parsed with ast and compared structurally with the live cstruct object (names both ways, constants as literals, enum members, field order, type hints decoded to type objects)",
+        text="for generated definition sets the stub must parse as Python; every user type/alias/constant must be declared and everything declared must exist on the cstruct object; constants must be Literal[value]; enum stubs must list exactly the members; each structure's annotated fields must equal T.fields in order and each hint (Array[..], Pointer[..], CharArray, WcharArray, cstruct.X, inline class) must denote the field's actual type object; keyword field names are a separately counted class tied to a recorded finding",
+        design_ref="DESIGN.md §4 C20",
+    ),
+})
+
 NOT_YET = {}
 
 
